@@ -492,8 +492,25 @@ def analyse_run(prog, F, W, run):
             return e
         v0 = lin_eval(c, gfn, make_env(0))
         vs = [lin_eval(c, gfn, make_env(kv)) for kv in (1, 2, 3, 7, 1000)]
+        shape_note = ''
         if v0 is None or any(v is None for v in vs):
-            continue
+            # the effective k may depend on the size of the graph (`_k(std::min(k, num_vertices(g)))`): evaluate over small graph sizes too
+            def env_nv(kval, nv):
+                e_ = make_env(kval)
+                e_[('nv',)] = nv
+                e_[('ne',)] = max(0, nv - 1)
+                return e_
+            grid0 = [lin_eval(c, gfn, env_nv(0, nv)) for nv in (0, 1, 2, 3, 10)]
+            gridp = [(kv, nv, lin_eval(c, gfn, env_nv(kv, nv))) for kv in (1, 2, 3, 7, 1000) for nv in (0, 1, 2, 3, 10)]
+            if any(v is None for v in grid0) or any(v is None for (_k, _n, v) in gridp):
+                continue
+            v0 = 1 if all(bool(v) == (ix == 0) for v in grid0) == (ix == 0) else 0
+            if not all(bool(v) == (ix == 0) for v in grid0):
+                v0 = 0 if ix == 0 else 1
+            vs = [v for (_k, _n, v) in gridp]
+            badp = [(kv, nv) for (kv, nv, v) in gridp if bool(v) == (ix == 0)]
+            if badp:
+                shape_note = ' (k = %d is rejected for a graph with %d vertices: the value tested is not k itself but depends on the size of the graph)' % badp[0]
         rejects0 = bool(v0) == (ix == 0)
         rejects_pos = [bool(v) == (ix == 0) for v in vs]
         # the guard must dominate every use of the output iterator
@@ -517,7 +534,7 @@ def analyse_run(prog, F, W, run):
             if not rejects0:
                 probs.append('with k = 0 the guard `%s` evaluates to %s in the arithmetic of its type (unsigned wrap-around included): not rejected' % (c.text(40), v0))
             if any(rejects_pos):
-                probs.append('the guard also rejects some k >= 1')
+                probs.append('the guard also rejects some k >= 1' + shape_note)
             if not dom:
                 probs.append('the guard does not dominate every use of the output iterator')
             F.add('R06a', c, run, what, 'violation', '; '.join(probs), key='R06a|%s|guard' % run.g)
